@@ -269,6 +269,66 @@ func runC29(w *World, r *Report) {
 		}
 	}
 
+	// every purge is broadcast: no way from entry to a return that skips the member loop, other than
+	// "this node is not clustered" and "the member list could not be read"
+	r.Rule("R-C29-4", "completeness: every path through BroadcastCacheFlush reaches the loop over the active members, except on the not-clustered edge (ClusterName == \"\" / systemDB == nil) and the error edge of ListActiveMembers", 1)
+
+	{
+		key := "cluster.BroadcastCacheFlush|no purge is dropped"
+
+		var header *ssa.BasicBlock
+
+		for _, li := range naturalLoops(bcast) {
+			for _, sc := range sends {
+				if li.body[sc.Block()] {
+					header = li.header
+				}
+			}
+		}
+
+		isGlobalLoad := func(v ssa.Value, name string) bool {
+			u, ok := v.(*ssa.UnOp)
+			if !ok {
+				return false
+			}
+
+			g, ok := u.X.(*ssa.Global)
+
+			return ok && g.Name() == name
+		}
+
+		cuts := cutEdges(bcast, func(f Fact) bool {
+			switch f.Kind {
+			case "eq":
+				if k, ok := constString(f.C); ok && k == "" && isGlobalLoad(f.V, "ClusterName") {
+					return true
+				}
+			case "nil":
+				if isGlobalLoad(f.V, "systemDB") {
+					return true
+				}
+			case "nonnil":
+				if c, idx := resultOf(f.V); c != nil && idx == 1 && callID(c.Common()) == "internal/server/cluster.ListActiveMembers" {
+					return true
+				}
+			}
+
+			return false
+		})
+
+		if header == nil {
+			r.Violate("R-C29-4", key, w.pos(bcast.Pos()), "no loop that sends to the members was found")
+		} else if exit := pathFromEntryAvoiding(bcast, cuts, func(i ssa.Instruction) bool { return i.Block() == header }, func(i ssa.Instruction) bool {
+			_, isRet := i.(*ssa.Return)
+
+			return isRet
+		}); exit != nil {
+			r.Violate("R-C29-4", key, w.pos(exit.Pos()), "BroadcastCacheFlush can return without walking the member list on a path that is neither 'not clustered' nor 'member list unavailable': that purge is never announced, and a peer that cached the item again keeps serving it")
+		} else {
+			r.Discharge("R-C29-4", key, w.pos(bcast.Pos()), "only the not-clustered and list-error edges skip the loop")
+		}
+	}
+
 	// hop limit in the handler
 	hopCuts := cutEdges(handler, func(f Fact) bool {
 		if f.Kind != "cmp" || (f.Op != token.LEQ && f.Op != token.LSS) {
